@@ -91,6 +91,11 @@ def canon_text(s):
     """Error markers are compared as opaque: `{ERROR: <anything up to the closing brace>}`."""
     if not isinstance(s, str):
         return s
+    # the browser copy's loop-failure marker embeds a whole Python message (code, braces, traceback):
+    # it cannot be delimited, so the text is compared up to that marker only
+    k = s.find("{ERROR: Loop failed")
+    if k >= 0:
+        s = s[:k] + "{ERROR-LOOP...}"
     return _MARK.sub("{ERROR}", s)
 
 
